@@ -354,8 +354,8 @@ def run_kani(prop, tier, harnesses):
     for grp, hs in groups.items():
         log = os.path.join(SCRATCH, "kani.%s.%s.%d.log" % (prop, grp, os.getpid()))
         os.makedirs(SCRATCH, exist_ok=True)
-        r = kx.run_group(grp, sorted(hs), timeout_s=(1500 if tier == "quick" else 7200), log_path=log,
-                         harness_timeout_s=(480 if tier == "quick" else 3000), rss_limit_gb=(10 if tier == "quick" else 20))
+        r = kx.run_group(grp, sorted(hs), timeout_s=(3000 if tier == "quick" else 10800), log_path=log,
+                         harness_timeout_s=(1200 if tier == "quick" else 4500), rss_limit_gb=(10 if tier == "quick" else 20))
         res["cmds"].append(r.cmd)
         res["time_s"] += r.wall_s
         if r.missing_anchor:
